@@ -2,7 +2,7 @@
 from hypothesis import strategies as st
 from ..runner import Outcome
 from .. import ops as O, eqv
-from ..hist import HistoryRun, bundle_sig, judge_state_diff
+from ..hist import HistoryRun, bundle_sig, judge_state_diff, undo_raised_sig
 
 ID = 'C01'
 LEVEL = 'exploration'
@@ -50,7 +50,7 @@ def run_case(case):
     r = hr.doc.apply([['ApplyUndoActions', undo]])
     sig = bundle_sig(uas)
     if not r.ok:
-      out.fail('C01:undo-raised:' + sig, '%s undo of %r raised %r' % (how, uas, r.error))
+      out.fail('C01:undo-raised:' + undo_raised_sig(hr.doc, uas, r.error), '%s undo of %r raised %r' % (how, uas, r.error))
       return None
     now = hr.doc.snapshot()
     bad, labels = judge_state_diff(before, now, hr.doc.log, log_pos)
